@@ -111,6 +111,9 @@ def generate(rng, opts):
         # branch.autoSetupMerge setting: `git worktree add -b` then writes upstream configuration for the new branch
         "remote_tracking": rng.random() < 0.3,
         "auto_setup_merge": rng.choice([None, None, None, "always", "false"]),
+        # Griffe is run from a Git hook (pre-commit, pre-push...): Git exports the location of the index and of the
+        # repository to the hook's environment
+        "hook_env": rng.choice([None, None, None, None, "index", "index+dir"]),
         "dirty": rng.sample(["modified", "staged", "untracked", "ignored"], rng.choice([0, 0, 1, 2, 3])),
         "user_worktree": rng.choice([None, None, None, None, "live", "live", "live", "stale"]) if all_branches else None,
     }
@@ -148,7 +151,7 @@ def generate(rng, opts):
             else:
                 faults.append({"kind": "bytecode"})
         if r < 0.6:
-            ops.append({"thread": rng.random() < 0.2, "op": "load_git", "ref": ref, "form": rng.choice(["name", "name", "path"]), "repo_arg": rng.choice(["abs", "abs", "dot", "relative", "pathobj"]), "resolve_aliases": rng.random() < 0.5, "force_inspection": any(f["kind"] == "bytecode" for f in faults), "faults": faults})
+            ops.append({"thread": rng.random() < 0.2, "op": "load_git", "ref": ref, "form": rng.choice(["name", "name", "path"]), "repo_arg": rng.choice(["abs", "abs", "dot", "relative", "pathobj", "child", "dotchild"]), "resolve_aliases": rng.random() < 0.5, "force_inspection": any(f["kind"] == "bytecode" for f in faults), "faults": faults})
         else:
             base = rng.choice([None, None, rng.choice(refs)])
             ops.append({"thread": rng.random() < 0.2, "op": "check", "api": rng.choice(["check", "main"]), "against": ref if rng.random() < 0.85 else None, "base_ref": base, "style": rng.choice([None, "oneline", "verbose", "markdown", "github"]), "faults": faults})
@@ -166,8 +169,14 @@ def _git(repo, *args, check=True, env=None):
     return p.stdout
 
 
+HOOK_VARS = ("GIT_INDEX_FILE", "GIT_DIR", "GIT_WORK_TREE", "GIT_PREFIX")
+
+
 def _env(date=None):
+    """Environment of the harness's own git commands (never the hook variables the simulated user may have)."""
     env = dict(os.environ)
+    for k in HOOK_VARS:
+        env.pop(k, None)
     env.update(GIT_ENV)
     if date is not None:
         stamp = f"2024-01-0{1 + date % 9}T00:00:{date % 60:02d}+00:00"
@@ -331,7 +340,7 @@ class SubprocessShim:
         n = self.counts.get(site, 0)
         self.counts[site] = n + 1
         self.sites.append(site)
-        kw.setdefault("env", _env())
+        kw.setdefault("env", {**os.environ, **GIT_ENV})  # what Griffe's child inherits (incl. hook variables, if any)
         if not kw.get("capture_output") and "stderr" not in kw:
             kw["stderr"] = real_subprocess.DEVNULL  # git's own complaints go to the inherited fd 2 otherwise
         if site not in CLEANUP:  # cleanup commands are never made to fail: no implementation could clean up without them
@@ -639,6 +648,13 @@ def execute(plan, ctx):
             stderr, stdout = sys.stderr, sys.stdout
             ggit.subprocess = shim
             sys.stderr, sys.stdout = err, io.StringIO()
+            hook_env = world["state"].get("hook_env")
+            if hook_env:
+                gitdir = _git(repo, "rev-parse", "--absolute-git-dir").strip()
+                os.environ["GIT_INDEX_FILE"] = os.path.join(gitdir, "index")
+                if hook_env == "index+dir":
+                    os.environ["GIT_DIR"] = gitdir
+                ctx.fault("hook-environment-" + hook_env)
             if any(f["kind"] == "bytecode" for f in faults):
                 sys.dont_write_bytecode = False  # CPython's default; this sandbox exports PYTHONDONTWRITEBYTECODE=1
                 ctx.fault("bytecode-caching-enabled")
@@ -646,7 +662,11 @@ def execute(plan, ctx):
                 with CheckoutReadSeam(tmpdir, faults, ctx):
                     if op["op"] == "load_git":
                         spec = "pkg" if op["form"] == "name" else Path("src/pkg" if world["layout"] == "src" else "pkg")
-                        repo_arg = {"abs": repo, "dot": ".", "relative": os.path.join("..", os.path.basename(repo)), "pathobj": Path(repo)}[op.get("repo_arg", "abs")]
+                        repo_arg = {"abs": repo, "dot": ".", "relative": os.path.join("..", os.path.basename(repo)), "pathobj": Path(repo),
+                                    # the caller sits in the directory above the repository and names it relatively
+                                    "child": os.path.basename(repo), "dotchild": os.path.join(".", os.path.basename(repo))}[op.get("repo_arg", "abs")]
+                        if op.get("repo_arg") in ("child", "dotchild"):
+                            os.chdir(os.path.dirname(repo))
                         return griffe.load_git(
                             spec,
                             ref=op["ref"],
@@ -700,6 +720,9 @@ def execute(plan, ctx):
             except BaseException as e:  # noqa: BLE001 - interruptions are part of the fault model
                 outcome = type(e).__name__
             finally:
+                os.chdir(repo)
+                for k in HOOK_VARS:
+                    os.environ.pop(k, None)
                 ggit.subprocess = real_subprocess
                 try:
                     import colorama
@@ -810,7 +833,7 @@ def shrink_candidates(plan):
             yield {**plan, "ops": ops[:i] + [{**op, "api": "check"}] + ops[i + 1 :]}
     world = plan["world"]
     st = world["state"]
-    for key, simple in (("collide_branch", False), ("detached", False), ("user_worktree", None), ("repo_dirname", "repo"), ("user_worktree_dirname", "user-wt"), ("work_in_linked_worktree", False), ("tmp_symlinked", False), ("post_checkout_hook", None), ("remote_tracking", False), ("auto_setup_merge", None)):
+    for key, simple in (("collide_branch", False), ("detached", False), ("user_worktree", None), ("repo_dirname", "repo"), ("user_worktree_dirname", "user-wt"), ("work_in_linked_worktree", False), ("tmp_symlinked", False), ("post_checkout_hook", None), ("remote_tracking", False), ("auto_setup_merge", None), ("hook_env", None)):
         if st[key] != simple:
             yield {**plan, "world": {**world, "state": {**st, key: simple}}}
     for red in core.list_reductions(st["dirty"]):
